@@ -27,7 +27,9 @@ import (
 	"sort"
 	"strconv"
 	"strings"
+	"syscall"
 	"time"
+	"unsafe"
 
 	"github.com/jcmoraisjr/haproxy-ingress/pkg/haproxy"
 	hatypes "github.com/jcmoraisjr/haproxy-ingress/pkg/haproxy/types"
@@ -202,8 +204,15 @@ func c12parseFault(s string) c12fault {
 	return f
 }
 
-// c12block replaces the file by a directory; the returned func restores what was there
+// c12block makes the next write of the file fail; the returned func restores what was there.  The process
+// runs as root, permissions do not stop it: an existing file is made immutable (it stays readable: a reload
+// that happens while it is blocked still reads it), a file that does not exist yet is replaced by a directory.
 func c12block(path string) func() {
+	if st, err := os.Lstat(path); err == nil && st.Mode().IsRegular() {
+		if c12immutable(path, true) == nil {
+			return func() { _ = c12immutable(path, false) }
+		}
+	}
 	old, err := os.ReadFile(path)
 	existed := err == nil
 	_ = os.Remove(path)
@@ -216,6 +225,33 @@ func c12block(path string) func() {
 			_ = os.WriteFile(path, old, 0644)
 		}
 	}
+}
+
+// c12immutable sets or clears the immutable inode flag (chattr +i / -i)
+func c12immutable(path string, on bool) error {
+	const (
+		fsIocGetFlags = 0x80086601
+		fsIocSetFlags = 0x40086602
+		fsImmutableFl = 0x10
+	)
+	f, err := os.Open(path)
+	if err != nil {
+		return err
+	}
+	defer f.Close()
+	var flags int64
+	if _, _, e := syscall.Syscall(syscall.SYS_IOCTL, f.Fd(), fsIocGetFlags, uintptr(unsafe.Pointer(&flags))); e != 0 {
+		return e
+	}
+	if on {
+		flags |= fsImmutableFl
+	} else {
+		flags &^= fsImmutableFl
+	}
+	if _, _, e := syscall.Syscall(syscall.SYS_IOCTL, f.Fd(), fsIocSetFlags, uintptr(unsafe.Pointer(&flags))); e != 0 {
+		return e
+	}
+	return nil
 }
 
 func (e *c12inst) arm(f c12fault) (restore func()) {
